@@ -27,6 +27,12 @@ def rawOK (ty : Ty) (a : Attrs) (kids cols : List Box) : Bool :=
   kids.all (fun c => rawTy c.ty && !(c.ty == .inline && c.a.running)) &&
   (!(ty == .tableCell) || decide (1 ≤ a.colspan))
 
+/-- `RawOK` as the composition theorem needs it: `rawOK` plus every cell child spans at least one column,
+    also a running one (`rawOK` alone says it only of cells that are not running; boxes_tree.go gives every
+    cell `Colspan ≥ 1`).  The harness evaluates this predicate on every real raw tree. -/
+def pt_rawOK (ty : Ty) (a : Attrs) (kids cols : List Box) : Bool :=
+  rawOK ty a kids cols && kids.all (fun c => !(c.ty == .tableCell) || decide (1 ≤ c.a.colspan))
+
 /-- the grid clause that does hold (see `grid_disjoint_partial`): first columns exclusive, rows
     internally disjoint, spans non-empty and inside the group -/
 def gridOKw (ty : Ty) (kids : List Box) : Bool :=
